@@ -359,6 +359,8 @@ def s_set(I, st, args, kwargs):
     if isinstance(v, VSeq):
         if v.arr is None:
             return VSet('unknown', None, z3.IntVal(0))
+        if getattr(v, 'splitsrc', None) is not None:
+            return split_set(I, st, v.splitsrc)
         x = z3.Const(fresh_name('x'), sort_of(v.ek))
         i = z3.Int(fresh_name('i'))
         mem = z3.Array(fresh_name('setof'), sort_of(v.ek), z3.BoolSort())
@@ -1320,7 +1322,44 @@ def m_pstr_split(I, st, s, sep=None, *a):
     n = d['SPLIT_COUNT'](s.t, sp)
     I.assume(st, n >= 1)
     i = z3.Int(fresh_name('i'))
-    return VSeq('pstr', n, z3.Lambda([i], d['SPLIT_PART'](s.t, sp, i)), flavor='list')
+    r = VSeq('pstr', n, z3.Lambda([i], d['SPLIT_PART'](s.t, sp, i)), flavor='list')
+    r.splitsrc = (s.t, sp)
+    return r
+
+
+def split_set(I, st, src):
+    """set(s.split(sep)) as a closed term: t in it  <=>  t is one of the split parts (both directions skolemised)."""
+    from . import speclib as spl
+    d = _psym()
+    P = d['P']
+    if 'SPLITSET' not in d:
+        d['SPLITSET'] = z3.Function('split_set', P, P, z3.ArraySort(P, z3.BoolSort()))
+        d['SPLITPOS'] = z3.Function('split_pos', P, P, P, z3.IntSort())
+        s_, sep, t = z3.Const('ss_s', P), z3.Const('ss_sep', P), z3.Const('ss_t', P)
+        i = z3.Int('ss_i')
+        S, PART, CNT_, POS = d['SPLITSET'], d['SPLIT_PART'], d['SPLIT_COUNT'], d['SPLITPOS']
+        spl.axiom('split_set.intro', z3.ForAll([s_, sep, i], z3.Implies(z3.And(i >= 0, i < CNT_(s_, sep)), S(s_, sep)[PART(s_, sep, i)]),
+                                               patterns=[PART(s_, sep, i)]), 'split_set')
+        spl.axiom('split_set.elim', z3.ForAll([s_, sep, t], z3.Implies(S(s_, sep)[t], z3.And(
+            POS(s_, sep, t) >= 0, POS(s_, sep, t) < CNT_(s_, sep), PART(s_, sep, POS(s_, sep, t)) == t)), patterns=[S(s_, sep)[t]]), 'split_set')
+        spl.axiom('split_count.positive', z3.ForAll([s_, sep], CNT_(s_, sep) >= 1, patterns=[CNT_(s_, sep)]), 'split_set')
+    return VSet('pstr', d['SPLITSET'](src[0], src[1]), None)
+
+
+def set_union_all(I, st, seq):
+    """set.union(*sets) over a non-empty list of sets: t in it  <=>  t is in one of them."""
+    if not (isinstance(seq, VSeq) and isinstance(seq.ek, tuple) and seq.ek[0] == 'set'):
+        raise EngineError('set.union(*x) on this operand')
+    I.oblige(st, 'nonempty[set.union(*sets)]', seq.length >= 1)
+    seq = materialize(I, st, seq)
+    ek = seq.ek[1]
+    U = z3.Array(fresh_name('unionall'), sort_of(ek), z3.BoolSort())
+    wit = z3.Function(fresh_name('unionwit'), sort_of(ek), z3.IntSort())
+    x = z3.Const(fresh_name('x'), sort_of(ek))
+    r = z3.Int(fresh_name('r'))
+    I.assume(st, z3.ForAll([r, x], z3.Implies(z3.And(r >= 0, r < seq.length, seq.arr[r][x]), U[x]), patterns=[seq.arr[r][x]]))
+    I.assume(st, z3.ForAll([x], z3.Implies(U[x], z3.And(wit(x) >= 0, wit(x) < seq.length, seq.arr[wit(x)][x])), patterns=[U[x]]))
+    return VSet(ek, U, None)
 
 
 def m_pstr_replace(I, st, s, a, b):
@@ -1965,3 +2004,80 @@ def xxh64_hexdigest(I, st, hasher):
     if not (isinstance(v, VStr) and v.opaque):
         raise EngineError('xxh64 of a non-string')
     return VStr(_slaw()['XXH'](v.t))
+
+
+# ----------------------------------------------------------------------------- frames built from a dict of columns, column-wise concat (C10, C11)
+def _frame_col_fn(I, frame):
+    data = frame.fields['data'].t
+    from . import sym as _sym
+    return z3.Function('frame_col_str', data.sort(), _sym.PSTR, z3.ArraySort(z3.IntSort(), _sym.PSTR)), data
+
+
+def _pd_dataframe_from_dict(I, st, d):
+    """pd.DataFrame(dict name -> list of str): one column per key (pandas raises ValueError unless all lists have one length),
+    RangeIndex over that length; an empty dict gives the empty frame."""
+    from . import sym as _sym
+    if d.kk != 'pstr' or d.vk != ('list', 'pstr'):
+        raise EngineError(f'pd.DataFrame(dict) with kinds {d.kk} -> {d.vk}')
+    P = _sym.PSTR
+    REC = sort_of(('list', 'pstr'))
+    ln, ar = REC.accessor(0, 0), REC.accessor(0, 1)
+    a, b = z3.Const(fresh_name('ka'), P), z3.Const(fresh_name('kb'), P)
+    I.oblige(st, 'equal_lengths[pd.DataFrame(dict)]', z3.ForAll([a, b], z3.Implies(z3.And(d.dom[a], d.dom[b]), ln(d.val[a]) == ln(d.val[b]))))
+    K = VSeq('pstr', z3.Int(fresh_name('dfcols.len')), z3.Array(fresh_name('dfcols.arr'), z3.IntSort(), P), flavor='list')
+    I.wellformed(st, K)
+    pos = z3.Function(fresh_name('dfcolpos'), P, z3.IntSort())
+    i, j = z3.Int(fresh_name('i')), z3.Int(fresh_name('j'))
+    n = z3.Int(fresh_name('dfrows'))
+    FD = sort_of(('opaque', 'FrameData'))
+    D = z3.Const(fresh_name('dfdata'), FD)
+    COL = z3.Function('frame_col_str', FD, P, z3.ArraySort(z3.IntSort(), P))
+    I.assume(st, z3.And(K.length >= 0, n >= 0, z3.Implies(K.length == 0, n == 0)))
+    if d.size is not None:
+        I.assume(st, K.length == d.size)
+    # the columns are exactly the keys, each once
+    I.assume(st, z3.ForAll([i], z3.Implies(z3.And(i >= 0, i < K.length), z3.And(d.dom[K.arr[i]], pos(K.arr[i]) == i)), patterns=[K.arr[i]]))
+    I.assume(st, z3.ForAll([a], z3.Implies(d.dom[a], z3.And(pos(a) >= 0, pos(a) < K.length, K.arr[pos(a)] == a, ln(d.val[a]) == n,
+                                                            COL(D, a) == ar(d.val[a]))), patterns=[d.dom[a]] if z3.is_const(d.dom) else [pos(a)]))
+    I.assume(st, z3.ForAll([a], z3.Implies(d.dom[a], z3.And(ln(d.val[a]) == n, COL(D, a) == ar(d.val[a]))), patterns=[COL(D, a)]))
+    return VObj('DataFrame', {'columns': K, 'nrows': VInt(n), 'data': VOpaque('FrameData', D), 'cells': VStr('str')})
+
+
+_pd_df_prev2 = _FUNCS['pandas.DataFrame']
+
+
+def _pd_dataframe2(I, st, args, kwargs):
+    if len(args) == 1 and isinstance(args[0], VDict) and not kwargs:
+        return _pd_dataframe_from_dict(I, st, args[0])
+    return _pd_df_prev2(I, st, args, kwargs)
+
+
+_FUNCS['pandas.DataFrame'] = _pd_dataframe2
+TRUSTED_NAMES.update({'pandas.DataFrame', 'pandas.concat'})
+
+
+@stub('pandas.concat')
+def s_pd_concat(I, st, args, kwargs):
+    """pd.concat([A, B], axis=1) of two frames with RangeIndex: the columns of A followed by the columns of B.  pandas aligns on the
+    index (outer join), so unless B has no columns the row counts must agree - otherwise cells would be missing (obligation)."""
+    from . import sym as _sym
+    ax = kwargs.get('axis')
+    if ax is None or not z3.is_true(z3.simplify(_int(ax) == 1)):
+        raise EngineError('pd.concat without axis=1')
+    frames = args[0]
+    items = frames.items if isinstance(frames, VTuple) else None
+    if not items or len(items) != 2 or not all(isinstance(f, VObj) and f.cls == 'DataFrame' for f in items):
+        raise EngineError('pd.concat of something other than two frames')
+    A, B = items
+    P = _sym.PSTR
+    FD = sort_of(('opaque', 'FrameData'))
+    COL = z3.Function('frame_col_str', FD, P, z3.ArraySort(z3.IntSort(), P))
+    I.oblige(st, 'row_aligned[pd.concat(axis=1)]', z3.Or(B.fields['columns'].length == 0, B.fields['nrows'].t == A.fields['nrows'].t))
+    cols = seq_concat(I, st, A.fields['columns'], B.fields['columns'])
+    D = z3.Const(fresh_name('catdata'), FD)
+    a = z3.Const(fresh_name('ka'), P)
+    inA, inB = I.contains(A.fields['columns'], VStr(a), st), I.contains(B.fields['columns'], VStr(a), st)
+    DA, DB = A.fields['data'].t, B.fields['data'].t
+    I.assume(st, z3.ForAll([a], z3.And(z3.Implies(z3.And(inA, z3.Not(inB)), COL(D, a) == COL(DA, a)),
+                                       z3.Implies(z3.And(inB, z3.Not(inA)), COL(D, a) == COL(DB, a))), patterns=[COL(D, a)]))
+    return VObj('DataFrame', {'columns': cols, 'nrows': A.fields['nrows'], 'data': VOpaque('FrameData', D), 'cells': VStr('str')})
